@@ -687,6 +687,25 @@ func startServers(serverList []Server, inst *Instance, restartFds map[string]res
 	// used to track termination of servers
 	stopWg := &sync.WaitGroup{}
 
+	// If not every server gets its sockets, none of them is started; the
+	// sockets obtained up to then (new ones, or this instance's duplicates
+	// of a running instance's sockets) must not stay open.
+	listening := false
+	defer func() {
+		if listening {
+			return
+		}
+		for _, s := range inst.servers {
+			if s.listener != nil {
+				s.listener.Close()
+			}
+			if s.packet != nil {
+				s.packet.Close()
+			}
+		}
+		inst.servers = nil
+	}()
+
 	for _, s := range serverList {
 		var (
 			ln  net.Listener
@@ -773,12 +792,16 @@ func startServers(serverList []Server, inst *Instance, restartFds map[string]res
 		if pc == nil {
 			pc, err = s.ListenPacket()
 			if err != nil {
+				if ln != nil {
+					ln.Close()
+				}
 				return fmt.Errorf("ListenPacket: %v", err)
 			}
 		}
 
 		inst.servers = append(inst.servers, ServerListener{server: s, listener: ln, packet: pc})
 	}
+	listening = true
 
 	for _, s := range inst.servers {
 		inst.wg.Add(2)
